@@ -220,6 +220,11 @@ func hostport(host, defaultPort string) (hostname, addr string) {
 		bracket = strings.IndexByte(host, ']')
 	)
 	if colon > bracket {
+		if colon == len(host)-1 {
+			// Empty port ("example.com:"): same as no port at all, see
+			// RFC 3986, section 3.2.3.
+			return host[:colon], host[:colon] + defaultPort
+		}
 		return host[:colon], host
 	}
 	return host, host + defaultPort
